@@ -269,6 +269,20 @@ class Fn:
             self._aliases = out
         return self._aliases
 
+    def retdefs(self):
+        """result variables of expanded helpers (sa/flatten.py) that are assigned exactly once: name -> the returned
+        expression, whatever it computes (the variable is read right after the assignment, in the continuation)"""
+        if getattr(self, "_retdefs", None) is None:
+            assigned = {}
+            for b in self.blocks.values():
+                for e in b.elems:
+                    if e["k"] == "bin" and e["op"] == "=":
+                        l = self.d(e["a"][0])
+                        if l and l["k"] == "var" and l["n"].endswith("$$ret"):
+                            assigned.setdefault(l["n"], []).append(e["a"][1])
+            self._retdefs = {k: self.d(v[0]) for k, v in assigned.items() if len(v) == 1}
+        return self._retdefs
+
     def _pure_lvalue(self, n, modified, depth=0):
         """an lvalue whose *address* is fixed: a variable, a member of such an lvalue, an element at a side-effect-free
         index, the target of a side-effect-free pointer expression"""
